@@ -389,6 +389,7 @@ func (prop) Run(c core.Case) core.Outcome {
 		if err != nil {
 			panic("harness: " + err.Error())
 		}
+		rc.normalizeExtNested() // store value + extended header = raw bytes (fiano reads both as the store)
 		img = rc.ser()
 		pol = rc.Pol
 		flags = rc.flags()
@@ -446,6 +447,15 @@ func (prop) Run(c core.Case) core.Outcome {
 	compacted := false
 	var lastBuf []byte
 	classes := []string{}
+	if c.Kind == "semi:nested-ext" && rc != nil {
+		// measured: how many stores behind an extended header are inside the grammar (NewNVarStore refuses
+		// content + header) and so pass every oracle
+		if flags.all() {
+			classes = append(classes, "nx:in-grammar")
+		} else {
+			classes = append(classes, "nx:outside")
+		}
+	}
 
 	res := ss.parse(pol, full)
 	step := func(res string) bool {
